@@ -1,6 +1,9 @@
 package worlds
 
 import (
+	"os"
+
+	"github.com/go-logr/logr/funcr"
 	"crypto/md5"
 	"fmt"
 	"time"
@@ -111,6 +114,9 @@ func newClassicAuth(r *Run, servers []string, mutate func(cfg *config.Config), m
 		r.Abort()
 	}
 	w.p = p
+	if r.Replay && os.Getenv("VSIM_GATELOG") != "" {
+		p.VerifSetLogger(funcr.New(func(prefix, args string) { r.Logf("gate: %s %s", prefix, args) }, funcr.Options{Verbosity: 2}))
+	}
 	for i, name := range servers {
 		b := &backendModel{index: i, name: name, addr: simnet.TCP(fmt.Sprintf("10.5.0.%d", i+1), 25565), w: w, Beh: backendBehavior{Compression: -1}}
 		w.backends[name] = b
